@@ -44,6 +44,24 @@ extern "C" void h_art_roundtrip(void) {
     VF_WITNESS();
   } VF_CATCH
 }
+// bytes -> Read -> Write on a fixed buffer: the written bytes are the input bytes (no second parse, so a reader/writer mismatch shows at once)
+extern "C" void h_art_write_once(void) {
+  static uint8_t in[ART_LEN + 4];
+  ArtShape s = build_art(in);
+  g_may_throw = false;
+  VF_TRY {
+    Stream::MemoryReader r(in, s.len);
+    ArtFile a = ArtFile::Read(r);
+    vf_assert(r.Position() == s.len, "reader consumes the whole structure");
+    check_rules(a);
+    static uint8_t out[ART_LEN + 16];
+    Stream::MemoryWriter w(out, sizeof out);
+    a.Write(w);
+    vf_assert(w.Position() == s.len, "written length");
+    for (unsigned i = 0; i < ART_LEN; i++) vf_assert(out[i] == in[i], "writing reproduces the input bytes (palette headers canonical)");
+    VF_WITNESS();
+  } VF_CATCH
+}
 // inputs violating a cross-field rule are refused by the reader (BADRULE) and structures violating them by the writer
 #ifndef BADRULE
 #define BADRULE 0   /* 0: scan-line width, 1: palette index, 2: header frame total, 3: header layer total */
